@@ -60,7 +60,7 @@ def main():
             k = (what, detail.split()[0] if detail else '', cfg.name, ty)
             if k in seen: continue
             seen.add(k)
-            if what in ('matmul', 'lazy_matmul_add', 'map_matmul', 'map_to_matmul'): shape = 'M,K,N = %d,%d,%d' % (int(a) // 10000, int(a) // 100 % 100, int(a) % 100)
+            if what in ('matmul', 'lazy_matmul_add', 'matmul_into_destination', 'map_matmul', 'map_to_matmul'): shape = 'M,K,N = %d,%d,%d' % (int(a) // 10000, int(a) // 100 % 100, int(a) % 100)
             elif what in ('transpose', 'lazy_trans_expr', 'reductions', 'outer_matvec_vecmat', 'views'): shape = 'M,N = %d,%d' % (int(a) // 100, int(a) % 100)
             else: shape = 'size/index %s' % a
             rep.violation('%s on %s %s, operands %s an inaccessible page, under %s: %s%s' % (what, ty, shape, 'starting right after' if b == '1' else 'ending at', cfg.name, detail, (' (signal %s)' % c) if c != '0' else ''),
